@@ -103,7 +103,7 @@ def run(ctx):
 
     # implementation -> model
     how = {"argv": argv_extra, "scenarios": None, "seed": ctx.seed, "note": "re-run bin/check C07 with the same VERIF_SEED"}
-    rejects, _ = ec.validate(ctx, "Trace_TxExec", events, "c07", how, ec.classify_tx, drop_event)
+    rejects, _ = ec.validate(ctx, "Trace_TxExec", events, "c07", how, ec.classify_tx, drop_event, chunk=12000)
     ntx = sum(1 for e in events if e["e"] == "Tx")
     ctx.cov["traces_validated_against_impl"] = (ntx + summary["packerRuns"] - rejects) + (len(scns) - mismatches)
 
